@@ -11,7 +11,7 @@ from vcheck import DiffProperty
 # iowrite_loop) is the code AS PATCHED.  Until the patch is committed to /repo the write cases that enter the loop
 # (part > 0 and count > 0) are not generated; replay of the defect: docs/C13_io_write_replay.json.
 # Flip to True once /repo contains the patch.
-IO_WRITE_PATCHED = False
+IO_WRITE_PATCHED = True
 
 
 def hx(bs):
